@@ -17,7 +17,7 @@ ASSUMPTIONS = ['expanded element names are unique per content model and wildcard
                'Python re on the expanded content model agrees with the derivative matcher or the case is dropped (oracle_disagreements)',
                'only the built-in simple types string/int/boolean/token/NMTOKEN/decimal/date with clear-cut literals are used; datatypes proper belong to C09',
                'error *codes* are only matched coarsely (class of codes per planted rule)']
-BUDGET = {'quick': 12, 'thorough': 130}
+BUDGET = {'quick': 10, 'thorough': 70}
 WALLCAP = {'quick': 420, 'thorough': 3000}
 
 # ---- error code tables (parsed from the tree that is being checked) -----------------------------------------
@@ -59,8 +59,8 @@ CLASS = {
     'xsitype-blocked': ['TypeNoSubforBlock', 'NonDerivedXsiType', 'ElemNoSubforBlock'],
     'abstract-elem': ['NoDirectUseAbstractElement'],
     'abstract-type': ['NoUseAbstractType', 'NoAbstractInXsiType'],
-    'strict-undeclared': ['ElementNotDefined', 'GrammarNotFound'],
-    'root-undeclared': ['ElementNotDefined', 'GrammarNotFound'],
+    'strict-undeclared': ['ElementNotDefined', 'GrammarNotFound', 'ElementNotValidForContent', 'NillNotAllowed', 'BadXsiType'],
+    'root-undeclared': ['ElementNotDefined', 'GrammarNotFound', 'ElementNotValidForContent', 'NillNotAllowed', 'BadXsiType'],
 }
 
 FEATSETS = [frozenset(), frozenset(), frozenset(['groups']), frozenset(['subst', 'groups']), frozenset(['wild']), frozenset(['wild', 'subst', 'groups', 'anyattr']),
@@ -519,6 +519,9 @@ def worker(ctx):
         def prop(c, fn=fn, name=name):
             try:
                 fn(c)
+            except PropertyFailure:
+                if os.environ.get('VERIF_STOP_AFTER_FAIL'): ctx.deadline = 0      # sensitivity runs: first detection is enough, skip shrinking
+                raise
             except xv.ExecutorDied as e:
                 s = c[0]
                 raise PropertyFailure({'lane': 'died', 'in_lane': name, 'schemas': xm.render_schema(s), 'cfg': c[1] if isinstance(c[1], dict) else {}},
